@@ -329,7 +329,7 @@ def impl_registry(case):
             try:
                 obs.append(r.run(op[2]))
             except NotADay as e:
-                return {'status': 'ok', 'obs': ['ERR', 'NotADay'], 'viol': viol or str(e)}
+                return {'status': 'ok', 'obs': ['ERR', 'NotADay'], 'viol': viol or '%s%s' % (e, r.what())}
             if viol is None and r.viol:
                 viol = 'op #%d on calendar(%r) (last registered with holidays=%s): %s' % (i, key, reg[0] if len(reg[0]) <= 12 else '%d days' % len(reg[0]), r.viol)
             continue
@@ -367,7 +367,7 @@ def impl(case):
     try:
         obs = [r.run(q) for q in case['q']]
     except NotADay as e:
-        return {'status': 'ok', 'obs': ['ERR', 'NotADay'], 'viol': r.viol or '%s  [query dates carry the time of day %s]' % (e, r.tod)}
+        return {'status': 'ok', 'obs': ['ERR', 'NotADay'], 'viol': r.viol or '%s%s' % (e, r.what())}
     return {'status': 'ok', 'obs': obs, 'viol': r.viol}
 
 # ------------------------------------------------------------------ Coq side
